@@ -280,7 +280,7 @@ class Function:
         self.ov = [S[i] for i in raw.get('ov', [])]
         self.parent = S[raw['parent']] if 'parent' in raw else None
         self.flags = {k for k in ('noexcept', 'virtual', 'const', 'static', 'lambda', 'ctor', 'dtor', 'externc',
-                                  'coroutine', 'volatile') if raw.get(k)}
+                                  'coroutine', 'volatile', 'varinit') if raw.get(k)}
         self._nodes = None
         self._cfg = None
         self._locals = None
